@@ -72,6 +72,14 @@ def gen(rng, thorough):
         h["script"] = [("stop",), ("inject", 0), ("inject", 1), ("inject_kill", 2, 6), ("advance", 130000 + 1000 * v), ("start",), ("answer", "fifo"), ("advance", 100), ("answer", "fifo")]
         h["id"] = "c02-down-36h-%d" % v
         hs.append(h)
+    # the same with many entries waiting: the clean-up scan (one mess/ entry per turn of the main loop) overtakes the
+    # preprocessing of todo/ (one message per turn) and meets old bodies that have todo/N but no info/N yet
+    for v in range(2):
+        idx += 1
+        h = base(idx, 9, rng)
+        h["script"] = [("stop",)] + [("inject", k) for k in range(9)] + [("advance", 129601 + 977 * v), ("start",), ("answer", "fifo"), ("advance", 100), ("answer", "fifo")]
+        h["id"] = "c02-down-36h-many-%d" % v
+        hs.append(h)
     return hs
 
 
